@@ -319,6 +319,20 @@ func runC11(c *ctx, r *Report) error {
 		}
 		r.nontrivial("lint:" + e)
 	}
+	// several placeholders in one script string: each one that reads an untrusted input is reported
+	{
+		src := "on: issues\njobs:\n  j:\n    runs-on: ubuntu-latest\n    steps:\n      - run: echo ${{ github.event.issue.title }} and ${{ github.head_ref }} and ${{ github.event.issue.body }}\n"
+		got, err := lintUntrusted(src)
+		r.Evaluations++
+		if err != nil {
+			return err
+		}
+		if len(got) != 3 {
+			r.finding("placeholders-after-first-diagnostic", fmt.Sprintf("a run: script with three placeholders that each read an untrusted input gets %d report(s): %v", len(got), got),
+				Case{Op: "lint", Input: map[string]string{"yaml": src}})
+		}
+		r.nontrivial("lint:multi-placeholder")
+	}
 	r.sample(map[string]string{"expr": "github.event['PULL_REQUEST'].head.ref }}", "impl": runSema(env, "github.event['PULL_REQUEST'].head.ref }}", true).canon})
 	r.sample(map[string]string{"expr": "contains(github.event.issue.title, 'x') || github.head_ref }}", "impl": runSema(env, "contains(github.event.issue.title, 'x') || github.head_ref }}", true).canon})
 	r.Exhaustive = true
